@@ -12,12 +12,14 @@ package time
 //@ spec scaled(v int64, mult int64) int64 = mult == 1 ? v : mult == 1000 ? v * 1000 : v * 1000000
 
 //@ func buildTimeCodec
+//@   props C06
 //@   ensures [C19,C13] err == nil && schema.Type == "long" ==> typeis(res, "LongCodec") && unbox(res, "LongCodec").mult == ((schema.Object != nil && schema.Object.LogicalType == "timestamp-micros") ? 1000 : (schema.Object != nil && schema.Object.LogicalType == "timestamp-millis") ? 1000000 : 1)
 //@   ensures [C19,C13] err == nil && schema.Type == "int" ==> typeis(res, "DateCodec") && schema.Object != nil && schema.Object.LogicalType == "date"
 //@   ensures [C19,C13] schema.Type != "string" && schema.Type != "long" && !(schema.Type == "int" && schema.Object != nil && schema.Object.LogicalType == "date") ==> err != nil
 //@   pure
 
 //@ func (DateCodec).Read
+//@   props C06
 //@   let i0 := r.i, n := len(r.buf), e := vend(r.buf, r.i), v := vval(r.buf, r.i)
 //@   requires wfRB(r) && p != nil && rawalloc(p, 24)
 //@   ensures [C19,C13] err == nil ==> uvOK(r.buf, i0, e) && r.i == e && fits(v, 4)
@@ -31,6 +33,7 @@ package time
 //@   modifies w.buf, BH[w.buf]
 
 //@ func (LongCodec).Read
+//@   props C06
 //@   let i0 := r.i, n := len(r.buf), e := vend(r.buf, r.i), v := vval(r.buf, r.i)
 //@   requires wfRB(r) && p != nil && rawalloc(p, 24) && (c.mult == 1 || c.mult == 1000 || c.mult == 1000000)
 //@   ensures [C19,C13] err == nil ==> uvOK(r.buf, i0, e) && r.i == e
@@ -96,11 +99,13 @@ package time
 //@   pure
 
 //@ func getTimezone
+//@   props C06
 //@   requires tzInv()
 //@   ensures [C18] res != nil && locoff(res) == offset && tzInv()
 //@   modifies map map[int]*time.Location, ghost lock.held
 
 //@ func parseTime
+//@   props C06
 //@   let n := len(in), e := fend(in, 20)
 //@   ensures [C18] n == 10 && dateOK(in) ==> err == nil && tsec(res) == civil(n4(in,0), n2(in,5), n2(in,8), 0, 0, 0) && tnsec(res) == 0 && toff(res) == 0
 //@   ensures [C18] n >= 20 && dateOK(in) && clockOK(in) && zoneOK(in, 19) ==> err == nil && tnsec(res) == 0 && toff(res) == zoneOff(in, 19) \
